@@ -315,7 +315,8 @@ def sec_single():
 
 # --------------------------------------------------------------------------------------------- multiple
 def ssigs(sigs):
-    return " ; ".join(srats(x) for x in sigs)
+    """rows in one field, each introduced by the marker token r"""
+    return " ".join("r " + srats(x) for x in sigs)
 
 
 def psigs(field):
@@ -486,7 +487,178 @@ def add_case_tm(b, sigs, master, steps):
         b.add(line, expect_err(errkind(e)))
 
 
-SECTIONS = {"single": sec_single, "multiple": sec_multiple}
+# ---------------------------------------------------------------------------------------------- spectra
+def sec_spectra():
+    total = 0
+    import eqsig.single
+    b = Batch()
+    twopi = 2 * np.pi
+    motions = [[1.0, -2.0, 1.0], [0.5], [0.0, 0.0], [3.0, 1.0, -4.0, 1.0, 5.0, -9.0, 2.0, 6.0], dyadic(16), dyadic(40), []]
+    period_sets = [[0.5], [0.0, 0.5], [0.0, 0.25, 0.5, 0.75, 1.0, 3.0], [0.29, 0.3, 0.31], [3.0, 2.0, 1.0, 0.1], [0.0], [],
+                   [0.059, 0.06, 0.061, 0.6, 6.0], [0.0, 0.06, 3.0]]
+    for motion in motions:
+        for dt in (0.05, 0.01, 0.5):
+            for periods in period_sets:
+                for xi in (0.05, 0.0, 0.3):
+                    for cont in (list, tuple, np.array):
+                        if cont is not list and random.random() < 0.6:
+                            continue
+                        pc = cont(periods)
+                        ru = rv = ra = None
+                        motion_l = motion
+                        # the float product dt*6 is rounded: at a tie T == fl(dt*6) != dt*6 the exact model takes the other side
+                        fl_dec = [float(T) < dt * 6 for T in periods]
+                        ex_dec = [Fr(float(T)) < Fr(dt) * 6 for T in periods]
+                        if fl_dec != ex_dec:
+                            STATS["tie_skipped"] = STATS.get("tie_skipped", 0) + 1
+                            continue
+                        motion = np.array(motion_l, dtype=float)   # NB a *list* record raises AttributeError in absmax(motion)
+                        try:
+                            ru, rv, ra = eqsig.sdof.nigam_and_jennings_response(motion, dt, pc, xi)
+                        except Exception as e:
+                            pass
+                        def rows(r):
+                            return ssigs(r) if r is not None else ""
+                        line = "pseudo|%s|%s|%s|%s|%s" % (srat(twopi), srat(dt), srats(motion), srats(periods), rows(ru))
+                        try:
+                            sds, svs, sas = eqsig.sdof.pseudo_response_spectra(motion, dt, pc, xi)
+                            if ru is None or not all(np.all(np.isfinite(x)) for x in (sds, svs, sas)):
+                                continue
+                            b.add(line, expect_close([[fr(x) for x in sds], [fr(x) for x in svs], [fr(x) for x in sas]], 1e-12))
+                            assert len(sds) == len(svs) == len(sas) == len(periods)
+                        except Exception as e:
+                            b.add(line, expect_err(errkind(e)))
+                        line = "true|%s|%s|%s|%s|%s|%s" % (srat(dt), srats(motion), srats(periods), rows(ru), rows(rv), rows(ra))
+                        try:
+                            sds, svs, sas = eqsig.sdof.true_response_spectra(motion, dt, pc, xi)
+                            if ru is None or not all(np.all(np.isfinite(x)) for x in (sds, svs, sas)):
+                                continue
+                            b.add(line, expect_close([[fr(x) for x in sds], [fr(x) for x in svs], [fr(x) for x in sas]], 1e-12))
+                        except Exception as e:
+                            b.add(line, expect_err(errkind(e)))
+                        motion = motion_l
+    total += b.run("pseudo/true spectra")
+    print("   (float ties T == fl(6*dt) skipped: %d)" % STATS.get("tie_skipped", 0))
+
+    # branch decision of gen_response_spectrum
+    b = Batch()
+    calls = {}
+    real_interp = eqsig.single.interp_array_to_approx_dt
+
+    def spy(values, dt, target_dt, even=True):
+        calls["interp"] = (target_dt, even)
+        return real_interp(values, dt, target_dt, even=even)
+    eqsig.single.interp_array_to_approx_dt = spy
+    try:
+        for dt in (0.01, 0.02, 0.005, 0.5, 0.0078125):
+            for ratio in (1, 2, 4, 8, 3, 0.5, 0):
+                for rt in ([0.1, 0.5, 1.0], [0.0, 0.1, 1.0], [0.0, 0.2], [0.2], [0.4, 1.0], [0.05, 1.0], [0.0], [], [1.0, 0.01],
+                           [0.0, 0.0, 1.0], [0.15625, 1.0], [0.16, 1.0], [0.0, 0.3125], [0.078125, 2.0], [0.0, 0.625], [10.0],
+                           [0.0390625]):
+                    calls.clear()
+                    asig = eqsig.AccSignal(np.array(dyadic(12)), dt)
+                    line = "gen_input|%s|%s|%s" % (srat(dt), srat(ratio), srats(rt))
+                    try:
+                        asig.gen_response_spectrum(response_times=np.array(rt), min_dt_ratio=ratio)
+                        if "interp" in calls:
+                            assert calls["interp"][1] is False
+                            b.add(line, expect_branch("interp", calls["interp"][0], dt))
+                        else:
+                            b.add(line, expect_branch("raw", None, dt))
+                    except Exception as e:
+                        if "interp" in calls or isinstance(e, (ValueError, FloatingPointError)) and rt and any(rt):
+                            # the decision was taken; the failure is downstream (interpolation / response), not modelled here
+                            if "interp" in calls:
+                                b.add(line, expect_branch("interp", calls["interp"][0], dt))
+                            continue
+                        b.add(line, expect_err(errkind(e)))
+    finally:
+        eqsig.single.interp_array_to_approx_dt = real_interp
+    total += b.run("gen_response_spectrum branch")
+
+    # energy spectra, asi / vsi
+    b = Batch()
+    for motion in [[1.0, -1.0], [1.0, -2.0, 1.0], dyadic(16), dyadic(33), [0.0, 0.0, 0.0], [2.0]]:
+        for dt in (1.0, 0.01, 0.125):
+            for periods in ([0.5], [0.3, 1.0, 2.5], [0.0, 0.5]):
+                for xi in (0.05, 0.0):
+                    asig = eqsig.AccSignal(np.array(motion), dt)
+                    ru, rv, ra = eqsig.sdof.response_series(asig.values, asig.dt, np.array(periods), xi)
+                    uke = eqsig.sdof.calc_resp_uke_spectrum(asig, periods=periods, xi=xi)
+                    b.add("uke|%s" % ssigs(rv), expect_close([[fr(x) for x in uke]], 1e-12))
+                    ie = eqsig.sdof.calc_input_energy_spectrum(asig, periods=np.array(periods), xi=xi)
+                    b.add("input_energy|%s|%s|%s" % (srat(dt), srats(motion), ssigs(rv)), expect_close([[fr(x) for x in ie]], 1e-12))
+                    ies = eqsig.sdof.calc_input_energy_spectrum(asig, periods=np.array(periods), xi=xi, series=True)
+                    b.add("input_energy_series|%s|%s|%s" % (srat(dt), srats(motion), ssigs(rv)),
+                          expect_signals_close(ies, 1e-12))
+        for periods in (None, np.array([0.1, 0.2, 0.5, 1.0]), np.array([0.3, 0.2]), np.array([0.5])):
+            asig = eqsig.AccSignal(np.array(motion), 0.01)
+            pa = np.arange(0.1, 1.51, 0.01) if periods is None else periods
+            pv = np.arange(0.1, 2.51, 0.01) if periods is None else periods
+            sds, psv, psa = eqsig.sdof.pseudo_response_spectra(asig.values, asig.dt, pa, 0.05)
+            line = "asi|%s|%s|%s" % (srat(0.01), srat(9.81), srats(psa))
+            try:
+                r = eqsig.im.calc_asi(asig, periods=periods)
+                b.add(line, expect_close([[fr(r)]], 1e-12))
+            except Exception as e:
+                b.add(line, expect_err(errkind(e)))
+            sds, psv, psa = eqsig.sdof.pseudo_response_spectra(asig.values, asig.dt, pv, 0.05)
+            line = "vsi|%s|%s" % (srat(0.01), srats(psv))
+            try:
+                r = eqsig.im.calc_vsi(asig, periods=periods)
+                b.add(line, expect_close([[fr(r)]], 1e-12))
+            except Exception as e:
+                b.add(line, expect_err(errkind(e)))
+    total += b.run("energy spectra / asi / vsi")
+    return total
+
+
+def expect_branch(kind, target, dt):
+    """branch of gen_response_spectrum; exact agreement counted, float rounding of T/20, dt/ratio tolerated (1e-12),
+    a flipped branch only when target_dt is within rounding of dt"""
+    def chk(f):
+        if f[0] != "ok":
+            return "expected ok %s %s" % (kind, target)
+        tok = f[1].split()
+        if tok[0] == kind:
+            if kind == "raw":
+                STATS["exact"] += 1
+                return None
+            t = prat(tok[1])
+            if t == fr(target):
+                STATS["exact"] += 1
+                return None
+            if abs(t - fr(target)) <= 1e-12 * fr(target):
+                STATS["close"] += 1
+                return None
+            return "python target=%r" % target
+        # flipped: acceptable only at a float tie target_dt ~ dt
+        t = prat(tok[1]) if tok[0] == "interp" else fr(target)
+        if abs(t - fr(dt)) <= 1e-12 * fr(dt):
+            STATS["close"] += 1
+            return None
+        return "python branch=%s target=%r" % (kind, target)
+    return chk
+
+
+def expect_signals_close(pysigs, rel):
+    def chk(f):
+        if f[0] != "ok":
+            return "expected ok"
+        got = psigs(f[1])
+        want = [[fr(x) for x in sg] for sg in pysigs]
+        if [len(g) for g in got] != [len(w) for w in want]:
+            return "shape python=%s" % (pysigs,)
+        scale = max([abs(x) for w in want for x in w] + [Fr(1)])
+        for g, w in zip(got, want):
+            for a, c in zip(g, w):
+                if abs(a - c) > rel * scale:
+                    return "python=%s" % (pysigs,)
+        return None
+    return chk
+
+
+SECTIONS = {"single": sec_single, "multiple": sec_multiple, "spectra": sec_spectra}
 
 if __name__ == "__main__":
     names = sys.argv[1:] or list(SECTIONS)
